@@ -47,6 +47,8 @@ def complete_event(draw, rank: int, epoch: int, fractional: bool, names_host: Li
             args["correlation"] = draw(st.sampled_from([0, 1, 2, 3, 17, 59]))
         if draw(st.sampled_from([False] * 6 + [True])):
             args["Input Dims"] = [[2, 3], []]
+        if draw(st.sampled_from([False] * 7 + [True])):
+            args["stream"] = pick(draw, ["0x0", "0x55d0c8a3b2f0"])  # ROCm: the stream handle of a host call, a hex string
         e = {"ph": "X", "cat": cat, "name": name, "pid": 5000 + rank, "tid": pick(draw, [5000 + rank, 6000 + rank]), "ts": ts, "dur": dur,
              "args": args}
     else:
